@@ -88,11 +88,18 @@ package sio
 //@   trusted
 //@   modifies ts
 
-// ResolveSpecSource (JSON round trip of the source, compilation or download of the spec): trusted.
+// ResolveSpecSource: loading any document yields a specification or an error
+// (never a crash: C07), and the decoder is chosen by the document's content:
+// a JSON object document is always decoded by encoding/json and never handed
+// to the YAML decoder, whose key names differ (C13). The frame is assumed (the decoders' results are
+// fresh objects, which the stubs do not say): trustedframe.
 //@ func ResolveSpecSource returns ss, spec, err
-//@   trusted
+//@   safety C07, C13
+//@   trustedframe
 //@   modifies nothing
 //@   ensures err == nil && ss != nil ==> fresh(ss)
+//@   callpre[C13] yaml.Unmarshal: len(arg0) == 0 || arg0[0] != 123
+//@   callpre[C13] json.Unmarshal: is(arg1, *core.Spec) ==> len(arg0) > 0 && arg0[0] == 123
 
 //@ spec ordinary(mid) = mid != "timers" && mid != "captain"
 
